@@ -172,28 +172,76 @@ Proof.
   - split; [discriminate|]. intros [k [Hk Hs]]. specialize (H k Hk). lia.
 Qed.
 
-Definition ck_window (K : consts) (l : list ev) : list ck := lastn (k_ck_window K) (ckpts l).
+(* the look-up used by every cut point: bounded backward scan when it covered the whole sidecar, truth otherwise;
+   either way it is best_le over a permutation of all checkpoint frames *)
+Definition cut_lookup (K : consts) (l : list ev) (s : N) : option ck :=
+  match ck_lookup K (ckpts l) s with Some b => b | None => best_le (ckpts l) s end.
 
-Lemma cut_point_at_done K l ord c :
+Lemma cut_lookup_inv K l s : BestInv s (ckpts l) (cut_lookup K l s).
+Proof.
+  unfold cut_lookup, ck_lookup. destruct (nlen (ckpts l) <=? k_ck_window K).
+  - pose proof (best_le_spec (rev (ckpts l)) s) as H.
+    destruct (best_le (rev (ckpts l)) s) as [b|]; cbn [BestInv] in *.
+    + destruct H as [Hi [Hm Hb]]. split; [apply in_rev; exact Hi|]. split; [exact Hm|].
+      intros k Hk. apply Hb. apply in_rev in Hk. exact Hk.
+    + intros k Hk. apply H. apply in_rev in Hk. exact Hk.
+  - apply best_le_spec.
+Qed.
+
+Lemma cut_point_at_shape K l ord c :
   In c (cut_point_at K l ord) ->
-  (cp_done c = true <-> exists k, In k (ck_window K l) /\ ck_to k = cp_seq c).
+  exists s id, nth_error (msgs l) (N.to_nat (ord - 1)) = Some (s, id) /\ c = mk_cut ord s id (cut_lookup K l s).
 Proof.
   unfold cut_point_at. destruct ((ord =? 0) || (nlen (msgs l) <? ord)); [intros []|].
   destruct (nth_error (msgs l) (N.to_nat (ord - 1))) as [[s id]|]; [|intros []].
-  intros [<-|[]]. cbn [cp_done cp_seq]. rewrite best_le_done. unfold ck_window.
-  split; intros [k [Hk Hs]]; exists k; (split; [|exact Hs]); [apply in_rev in Hk; exact Hk | apply in_rev; rewrite rev_involutive; exact Hk].
+  intros [<-|[]]. exists s, id. split; reflexivity.
 Qed.
 
-Theorem checkpointed_iff_window K stride lim l c :
+(* what "checkpointed, the latest such frame (by stream order) winning" means for one cut point *)
+Definition latest_for (cks : list ck) (s : N) (b : ck) : Prop :=
+  In b cks /\ ck_to b = s /\ forall k, In k cks -> ck_to k = s -> ck_seq k <= ck_seq b.
+
+Lemma mk_cut_spec cks ord s id acc :
+  BestInv s cks acc ->
+  let c := mk_cut ord s id acc in
+  (cp_done c = true <-> exists k, In k cks /\ ck_to k = s)
+  /\ (forall i, cp_ck c = Some i <-> exists b, latest_for cks s b /\ ck_id b = i /\ acc = Some b)
+  /\ (cp_done c = false -> cp_ck c = None).
+Proof.
+  intros H. cbn zeta. unfold mk_cut. cbn [cp_done cp_ck]. destruct acc as [b|]; cbn [BestInv option_map] in *.
+  - destruct H as [Hi [Hm Hb]]. destruct (ck_to b =? s) eqn:E.
+    + apply N.eqb_eq in E. split; [|split].
+      * split; [intros _; exists b; auto | reflexivity].
+      * intros i. split.
+        -- intros Hc. injection Hc as <-. exists b. split; [|auto]. split; [exact Hi|]. split; [exact E|].
+           intros k Hk Hs. specialize (Hb k Hk). unfold not_better in Hb. lia.
+        -- intros [b' [_ [Hid Hacc]]]. injection Hacc as <-. rewrite Hid. reflexivity.
+      * discriminate.
+    + apply N.eqb_neq in E. split; [|split].
+      * split; [discriminate|]. intros [k [Hk Hs]]. specialize (Hb k Hk). unfold not_better in Hb. lia.
+      * intros i. split; [discriminate|]. intros [b' [[_ [Hs _]] [_ Hacc]]]. injection Hacc as <-. congruence.
+      * reflexivity.
+  - split; [|split].
+    + split; [discriminate|]. intros [k [Hk Hs]]. specialize (H k Hk). lia.
+    + intros i. split; [discriminate|]. intros [b' [_ [_ Hacc]]]. discriminate.
+    + reflexivity.
+Qed.
+
+Lemma cut_point_at_done K l ord c :
+  In c (cut_point_at K l ord) ->
+  (cp_done c = true <-> exists k, In k (ckpts l) /\ ck_to k = cp_seq c).
+Proof.
+  intros H. apply cut_point_at_shape in H. destruct H as [s [id [_ ->]]].
+  exact (proj1 (mk_cut_spec (ckpts l) ord s id _ (cut_lookup_inv K l s))).
+Qed.
+
+Theorem checkpointed_iff_ck K stride lim l c :
   In c (cut_points K stride lim l) ->
-  (cp_done c = true <-> exists k, In k (ck_window K l) /\ ck_to k = cp_seq c).
+  (cp_done c = true <-> exists k, In k (ckpts l) /\ ck_to k = cp_seq c).
 Proof.
   unfold cut_points. intros H. apply in_flat_map in H. destruct H as [ord [_ H]].
   eapply cut_point_at_done, H.
 Qed.
-
-Lemma lastn_all {A} n (l : list A) : nlen l <= n -> lastn n l = l.
-Proof. unfold lastn. intros H. apply N.leb_le in H. rewrite H. reflexivity. Qed.
 
 Lemma in_ckpts l k :
   In k (ckpts l) <-> exists e, In e l /\ ebody e = BCkpt (ck_rule k) (ck_art k) (ck_to k) (ck_mid k)
@@ -206,21 +254,45 @@ Proof.
     destruct k; cbn in *. subst. reflexivity.
 Qed.
 
-(* the property's wording: checkpointed exactly when a checkpoint frame for that seq exists
-   (as long as the thread holds no more checkpoint frames than the bounded scan reads) *)
+(* the property's wording: checkpointed exactly when a checkpoint frame for that seq exists *)
 Theorem checkpointed_iff K stride lim l c :
-  nlen (ckpts l) <= k_ck_window K ->
   In c (cut_points K stride lim l) ->
   (cp_done c = true <-> exists e r a m, In e l /\ ebody e = BCkpt r a (cp_seq c) m).
 Proof.
-  intros Hw Hc. rewrite (checkpointed_iff_window K stride lim l c Hc).
-  unfold ck_window. rewrite lastn_all by exact Hw. split.
+  intros Hc. rewrite (checkpointed_iff_ck K stride lim l c Hc). split.
   - intros [k [Hk Hs]]. apply in_ckpts in Hk. destruct Hk as [e [He [Hb _]]].
     exists e, (ck_rule k), (ck_art k), (ck_mid k). rewrite <- Hs. auto.
   - intros [e [r [a [m [He Hb]]]]].
     exists {| ck_to := cp_seq c; ck_seq := eseq e; ck_id := eid e; ck_art := a; ck_rule := r; ck_mid := m |}.
     split; [|reflexivity]. apply in_ckpts. exists e. cbn. auto.
 Qed.
+
+(* … the latest such frame (largest frame seq = latest in stream order) winning *)
+Theorem checkpointed_latest_wins K stride lim l c :
+  In c (cut_points K stride lim l) ->
+  (forall i, cp_ck c = Some i <-> exists b, latest_for (ckpts l) (cp_seq c) b /\ ck_id b = i
+                                          /\ cut_lookup K l (cp_seq c) = Some b)
+  /\ (cp_done c = false -> cp_ck c = None).
+Proof.
+  unfold cut_points. intros H. apply in_flat_map in H. destruct H as [ord [_ H]].
+  apply cut_point_at_shape in H. destruct H as [s [id [_ ->]]].
+  exact (proj2 (mk_cut_spec (ckpts l) ord s id _ (cut_lookup_inv K l s))).
+Qed.
+
+(* the behaviour before the repair (bounded scan trusted even when it stopped at the event cap) *)
+Definition unfixed_log : list ev :=
+  [ {| eseq := 0; eid := 1; ebody := BOther |};
+    {| eseq := 1; eid := 2; ebody := BMsg 0 0 |}; {| eseq := 2; eid := 3; ebody := BMsg 0 1 |};
+    {| eseq := 3; eid := 4; ebody := BCkpt 0 1 1 (Some 2) |};
+    {| eseq := 4; eid := 5; ebody := BCkpt 0 1 2 (Some 3) |}; {| eseq := 5; eid := 6; ebody := BCkpt 0 1 2 (Some 3) |} ].
+Definition small_window : consts :=
+  {| k_default_stride := 10000; k_limit_lo := 1; k_limit_hi := 32; k_plan_limit := 32;
+     k_maxnew_lo := 1; k_maxnew_hi := 32; k_ck_window := 2; k_inflight_window := 512 |}.
+Lemma unfixed_refuted :
+  map (fun c => (cp_seq c, cp_done c)) (cut_points_unfixed small_window 1 2 unfixed_log) = [(2, true); (1, false)]
+  /\ map (fun c => (cp_seq c, cp_done c)) (cut_points small_window 1 2 unfixed_log) = [(2, true); (1, true)]
+  /\ In {| eseq := 3; eid := 4; ebody := BCkpt 0 1 1 (Some 2) |} unfixed_log.
+Proof. split; [|split]; vm_compute; auto. Qed.
 
 (* ---------- stride 0 ---------- *)
 Theorem stride_zero_rejected K s :
@@ -249,5 +321,5 @@ Definition demo_log : list ev := log (fst (run_ops real_consts st0 demo_ops []))
 Lemma demo_cut_points :
   map (fun c => (cp_ord c, cp_seq c, cp_mid c, cp_done c, cp_ck c)) (cut_points real_consts 2 32 demo_log)
   = [(4, 5, 6, false, None); (2, 2, 3, true, Some 9)]
-  /\ nlen (ckpts demo_log) <= k_ck_window real_consts.
-Proof. split; vm_compute; [reflexivity | discriminate]. Qed.
+  /\ map eid (filter (fun e => match ebody e with BCkpt _ _ 2 _ => true | _ => false end) demo_log) = [8; 9].
+Proof. split; vm_compute; reflexivity. Qed.
